@@ -582,9 +582,21 @@ def ktable_terms(ix, R, kt, pfx='7'):
         if not ok:
             why.append('per-angle column is not added at its own angle index')
         g = [x for x in e.guards]
-        ga0 = atom_of(fl, g[0].rf) if len(g) == 1 and g[0].rf is not None else None
-        if len(g) != 1 or g[0].positive or ga0 is None or ga0.head != 'cmp' or ga0.extra[0] != 'Is' or \
-                fmt(fl, ga0.args[-1]) != 'None':
+        # the only condition: the molecule contribution exists (`<receiver> is not None`, in whatever form that test
+        # takes after substitution of the receiver's definition)
+        okg = False
+        if len(g) == 1 and g[0].rf is not None and e.recv_rf is not None:
+            ga0 = atom_of(fl, g[0].rf)
+            if ga0 is not None and ga0.head == 'cmp' and ga0.extra[0] == 'Is' and fmt(fl, ga0.args[-1]) == 'None':
+                okg = not g[0].positive
+            # receiver = None by default, set under one condition c: `receiver is not None` is c
+            for d in fl.of('assign'):
+                if d.value is not None and fl.tab.equal(d.value, e.recv_rf) and len(d.guards) == 1 and d.guards[0].rf is not None:
+                    dflt = [x for x in fl.of('assign') if x.name == d.name and x is not d and not x.guards and
+                            x.value is not None and fmt(fl, x.value) == 'None']
+                    if dflt and fl.tab.equal(d.guards[0].rf, g[0].rf) and d.guards[0].positive == g[0].positive:
+                        okg = True
+        if not okg:
             why.append('guards %s' % [x.text() for x in g])
         for x in sts + rs[:1]:
             if [y.node for y in x.guards] != [y.node for y in g]:
